@@ -1455,8 +1455,11 @@ def _eval(pb, framework, step, options):
     r_val = pb.maxcv(x_eval, cub_val, ceq_val)
     if (
         fun_val <= options[Options.TARGET]
+        and pb.fun_last <= options[Options.TARGET]
         and r_val <= options[Options.FEASIBILITY_TOL]
     ):
+        # The value returned by the objective function must meet the target
+        # as well, not only the barrier that may have replaced it.
         raise TargetSuccess
     if pb.is_feasibility and r_val <= options[Options.FEASIBILITY_TOL]:
         raise FeasibleSuccess
